@@ -187,6 +187,31 @@ def gen_M(rng):
     return "M %s %s | %s" % (rng.choice("si"), ",".join(ents) if ents else "-", " ".join(ops))
 
 
+def gen_Y(rng):
+    """One ExportTo into *YNode (untyped field first) / *ZNode (typed field first) over a script graph with heavy
+    sharing and cycles: every object is reachable through interface{} AND typed destinations in both visit orders."""
+    n = rng.randint(1, 5)
+    kinds = ["n"] + [rng.choice("nnnml") for _ in range(n - 1)]
+    ids = {k: [i for i, x in enumerate(kinds) if x == k] for k in "nml"}
+    toks = []
+    for i, k in enumerate(kinds):
+        if k == "n":
+            fs = []
+            for f in ("Any", "Next", "M", "L", "Any2", "Kids", "Next2"):
+                if rng.random() < 0.6:
+                    pool = {"Any": list(range(n)), "Any2": list(range(n)), "Next": ids["n"], "Next2": ids["n"], "M": ids["m"], "L": ids["l"], "Kids": ids["l"]}[f]
+                    if pool:
+                        fs.append("%s=r%d" % (f, rng.choice(pool)))
+            if rng.random() < 0.3:
+                fs.append("V=%d" % rng.randint(1, 99))
+            toks.append("n:" + ",".join(fs))
+        elif k == "m":
+            toks.append("m:" + ",".join("k%d=r%d" % (j, rng.choice(ids["n"])) for j in range(rng.randint(0, 3))))
+        else:
+            toks.append("l:" + ",".join("r%d" % rng.choice(ids["n"]) for _ in range(rng.randint(0, 3))))
+    return "Y %s %s" % (rng.choice("YZ"), " ".join(toks))
+
+
 def gen_gateways():
     """every arity / argument count / result shape up to the bounds below (all branches of both gateways)"""
     lines = []
@@ -433,7 +458,7 @@ def main(ctx):
     ctx.lake_build(["GojaModel.C13.Props", "GojaModel.C13.Tie"])
     # the driver does not depend on Props/Tie: a broken theorem or tie must not switch the correspondence off
     ok, errs = ctx.lake_build(["model_c13"])
-    ctx.audit("GojaModel.C13.Props", expect_min=28)
+    ctx.audit("GojaModel.C13.Props", expect_min=32)
     if not quick:
         ctx.leanchecker("GojaModel.C13.Props")
     ctx.log("lean done")
@@ -484,6 +509,8 @@ def main(ctx):
     f_t = bg.submit(run_sharded, ctx, h, T, 4)
     f_p = bg.submit(run_sharded, ctx, h, P, 4)
     f_e = bg.submit(run_sharded, ctx, h, E, 1)
+    Y = [l for l in corpus if l.startswith("Y ")] + [gen_Y(rng) for _ in range(1500 if quick else 60000)]
+    f_y = bg.submit(run_sharded, ctx, h, Y, 4)
     if model_ok:
         rc, mres, err = ctx.run_lines([model], model_lines(both), timeout=3600)
         if rc == 124:      # slow machine: inconclusive, once more with a longer limit
@@ -650,6 +677,50 @@ def main(ctx):
                    {"kind": "input", "lines": [line], "expected": [want], "observed": [got]})
     ctx.stats["E_results"] = dict(zip(E, eres))
 
+    # Y: within ONE ExportTo the same script object must be the same Go value at every destination of the same type,
+    # whatever the order of untyped (interface{}) and typed (struct pointer / named map / typed slice) visits
+    yres = f_y.result()
+    ctx.count(len(Y))
+    ymulti = 0
+    ybad = []
+    for line, r in zip(Y, yres):
+        ctx.nontriv(line)
+        if r.startswith("INCONCLUSIVE"):
+            continue
+        m = re.match(r"ok pairs=(\d+) classes=(\d+) multiclass=(\d+)", r)
+        if m:
+            ymulti += 1 if int(m.group(3)) > 0 else 0
+            continue
+        ybad.append((line, r))
+    ctx.stats["Y_cases_with_object_at_several_destination_types"] = ymulti
+    ctx.obligation("oracle:exportTo-mixed-destinations-identity", "correspondence", not ybad,
+                   "%d graphs; %s" % (len(Y), ("first failure: %s -> %s" % ybad[0]) if ybad else "one Go identity per (object, destination type) everywhere"))
+    if ybad:
+        # shrink: fewest nodes first (lines are independent inputs), then drop fields while it still fails
+        line, r = min(ybad, key=lambda lr: len(lr[0]))
+        toks = line.split()
+        changed = True
+        while changed:
+            changed = False
+            for i in range(2, len(toks)):
+                kind, _, body = toks[i].partition(":")
+                parts = [x for x in body.split(",") if x]
+                for j in range(len(parts)):
+                    cand = toks[:i] + [kind + ":" + ",".join(parts[:j] + parts[j + 1:])] + toks[i + 1:]
+                    rc, o, _ = ctx.run_lines([h], [" ".join(cand)], timeout=300)
+                    if o and not o[0].startswith("ok") and o[0].split()[0] == r.split()[0]:
+                        toks, changed = cand, True
+                        break
+                if changed:
+                    break
+        l2 = " ".join(toks)
+        rc, o, _ = ctx.run_lines([h], [l2], timeout=300)
+        got = o[0] if o else r
+        cls = re.search(r"class=(\S+)", got)
+        report("exportTo-identity-split:%s" % (cls.group(1) if cls else got.split()[0]),
+               "one ExportTo exported the same script object to two different Go values of the same type: %s -> %s" % (l2, got),
+               {"kind": "input", "lines": [l2], "expected": ["ok (one Go identity per (script object, destination type))"], "observed": [got]})
+
     for sig, (summary, replay) in found.items():
         ctx.violation(sig, summary, replay)
     for l in W[:3] + P[:2] + T[:2] + Sx[40:43]:
@@ -670,6 +741,8 @@ def replay(ctx, path):
     rc, o, err = ctx.run_lines([h], lines, timeout=120)
     print("signature:", r.get("signature"))
     for l, x in zip(lines, o):
+        if l.startswith("Y "):
+            print("target        : *%sNode (struct{Any interface{}; Next *T; M map; L []*T; Any2 interface{}; ...}); script graph nodes n0.. as listed" % l.split()[1])
         print("input         :", l)
         print("implementation:", x)
         if l[0] in "WNFGSXVMCJ" and os.path.exists(ctx.model_exe()):
